@@ -28,6 +28,11 @@ impl<T> ErrorEnvelope<T> {
         &self.0
     }
 
+    /// The position of the error, followed by the positions of the active call sites.
+    pub(crate) fn positions(&self) -> &[Position] {
+        &self.1
+    }
+
     /// The positions carried by the envelope: the failing statement first,
     /// then the active call sites.
     #[cfg(feature = "verif")]
